@@ -146,25 +146,36 @@ def trace_count(tn, pred):
     return memo[id(tn)] if tn is not None else (0, 0)
 
 
-def trace_paths(tn, limit=20000):
-    """all event sequences (lists, oldest first) ending at tn; bounded enumeration"""
+def trace_paths(tn, limit=20000, keep=None):
+    """all event sequences (lists, oldest first) ending at tn, restricted to the events satisfying
+    `keep`; sequences that agree on the kept events are enumerated once"""
     memo = {}
-
-    def rec(t):
-        if t is None:
-            return [()]
-        k = id(t)
-        if k in memo:
-            return memo[k]
-        res = []
+    evs = {}
+    stack = [(tn, False)]
+    while stack:
+        t, done = stack.pop()
+        if t is None or id(t) in memo:
+            continue
+        if not done:
+            stack.append((t, True))
+            for p in t.preds:
+                if p is not None and id(p) not in memo:
+                    stack.append((p, False))
+            continue
+        res = set()
+        mine = ()
+        if t.ev is not None and (keep is None or keep(t.ev)):
+            evs[id(t.ev)] = t.ev
+            mine = (id(t.ev),)
         for p in (t.preds or (None,)):
-            for seq in rec(p):
-                res.append(seq + ((t.ev,) if t.ev is not None else ()))
+            for seq in (memo[id(p)] if p is not None else ((),)):
+                res.add(seq + mine)
                 if len(res) > limit:
-                    raise AnalysisBroken('effect graph has too many paths')
-        memo[k] = res
-        return res
-    return [list(x) for x in rec(tn)]
+                    raise AnalysisBroken('effect graph has too many distinct paths')
+        memo[id(t)] = res
+    if tn is None:
+        return [[]]
+    return [[evs[i] for i in seq] for seq in memo[id(tn)]]
 
 
 class State:
